@@ -412,13 +412,22 @@ def build_formula(ops):
     return lf
 
 
+def load_problog():
+    import problog  # noqa: F401
+    import problog.cycles  # noqa: F401
+    import problog.cnf_formula  # noqa: F401
+    import problog.engine  # noqa: F401
+    import problog.program  # noqa: F401
+
+
 # ====================================================================== one case (runs in a worker)
 def run_case(case):
     """Returns a dict with everything the parent needs (encoded; no ProbLog objects)."""
     kind, payload, max_ids = case
     res = {"kind": kind, "payload": payload, "status": "ok", "violations": [], "notes": []}
+    load_problog()   # never import under the grounding alarm (a half-initialised package loses its transformations)
     try:
-        lf = pl.with_timeout(ground_text, 10, payload) if kind == "text" else build_formula(payload)
+        lf = pl.with_timeout(ground_text, 20, payload) if kind == "text" else build_formula(payload)
     except BaseException as e:  # noqa
         if isinstance(e, (KeyboardInterrupt, SystemExit)):
             raise
@@ -643,6 +652,7 @@ def run(ctx):
             cases.append(("builder", gen_builder_ops(ctx.rng, ctx.rng.choice([4, 6, 8, max_ids - 2])), max_ids))
         for _ in range(ndense):
             cases.append(("builder", gen_dense_ops(ctx.rng), max_ids))
+    load_problog()   # before forking the workers
     ctx.log("running %d cases through LogicDAG.create_from / CNF.create_from and the reference semantics" % len(cases))
     results = pl.pmap(run_case, cases, jobs=ctx.n(6, 12), chunksize=8)
 
